@@ -4,7 +4,7 @@ PROPS = {}
 
 PROPS['C11'] = dict(
     title='clean() normal form; word boundaries',
-    groups=[dict(template='c11_word_boundaries.rs')],
+    groups=[dict(template='c11_word_boundaries.rs'), dict(template='c11_clean.rs')],
     claim='',
     not_covered=[],
     assumptions=[],
